@@ -598,3 +598,69 @@ Proof.
   - apply orb_false_iff in E3 as [E4 E5]. apply Z.ltb_ge in E4, E5.
     intros H; injection H as <- <- <-. right. simpl. unfold UNIT in *. repeat split; lia.
 Qed.
+
+(* ------------------------------------------------------------------------------------------ *)
+(* state export / import: interval records                                                      *)
+Lemma chunk_idx_default o h : 0 < o_interval o -> 0 <= h -> chunk_idx o [] h = h / o_interval o + 1.
+Proof.
+  intros Hi Hh. unfold chunk_idx, get_interval. simpl. rewrite Z.sub_0_r.
+  rewrite Z.quot_div_nonneg by lia. lia.
+Qed.
+
+Lemma get_interval_single c h : 2 <= h -> get_interval [mkIvl c 2] h = mkIvl c 2.
+Proof.
+  intros Hh. unfold get_interval. simpl.
+  destruct (2 <=? h) eqn:E; [reflexivity|]. apply Z.leb_gt in E. lia.
+Qed.
+
+Lemma chunk_idx_imported o c h : 0 < o_interval o -> 2 <= h ->
+  chunk_idx o (load_intervals (mkIvl c 2)) h = c + (h - 2) / o_interval o + 1.
+Proof.
+  intros Hi Hh. unfold chunk_idx, load_intervals. rewrite get_interval_single by exact Hh. simpl.
+  rewrite Z.quot_div_nonneg by lia. reflexivity.
+Qed.
+
+(* the interval record written by an export at ANY version V (multiples of the interval included)
+   names the chunk that was open — i.e. credited — at V *)
+Lemma export_open_chunk o V : 0 < o_interval o -> 0 <= V ->
+  dump_interval o [] V = mkIvl (V / o_interval o + 1) 2 /\
+  iv_index (dump_interval o [] V) = chunk_idx o [] V.
+Proof. intros Hi HV. unfold dump_interval. rewrite chunk_idx_default by assumption. auto. Qed.
+
+(* after the import every credit (heights >= 2; block 1 has no votes) goes to a chunk beyond the
+   exported ones: what was exported is final *)
+Lemma import_credits_fresh o V h : 0 < o_interval o -> 0 <= V -> 2 <= h ->
+  chunk_idx o [] V < chunk_idx o (load_intervals (dump_interval o [] V)) h.
+Proof.
+  intros Hi HV Hh. unfold dump_interval. rewrite chunk_idx_imported by assumption.
+  assert (0 <= (h - 2) / o_interval o) by (apply Z.div_pos; lia). lia.
+Qed.
+
+(* the exporting chain matured, at its last maturity height, the chunk two below the open one *)
+Lemma export_frontier o V : 0 < o_interval o -> 0 <= V ->
+  matured_idx o [] (last_maturity_height o V) = chunk_idx o [] V - 2.
+Proof.
+  intros Hi HV. unfold matured_idx, last_maturity_height.
+  assert (0 <= V / o_interval o) by (apply Z.div_pos; lia).
+  rewrite !chunk_idx_default by (try assumption; nia).
+  rewrite Z.div_mul by lia. reflexivity.
+Qed.
+
+(* the importing chain matures, at its k-th maturity height, the chunk k-2 above the exported open
+   one: the first is the successor of the exporter's frontier, then one by one — every chunk
+   matures exactly once across the relaunch, for ALL export versions *)
+Lemma import_maturity_sequence o V k : 2 <= o_interval o -> 0 <= V -> 1 <= k ->
+  matured_idx o (load_intervals (dump_interval o [] V)) (k * o_interval o) = chunk_idx o [] V + k - 2.
+Proof.
+  intros Hi HV Hk. unfold matured_idx, dump_interval.
+  rewrite chunk_idx_imported by nia.
+  assert ((k * o_interval o - 2) / o_interval o = k - 1) as ->; [|lia].
+  symmetry. apply (Z.div_unique _ _ _ (o_interval o - 2)); [lia|ring].
+Qed.
+
+Lemma import_maturity_sequence_1 o V h : o_interval o = 1 -> 0 <= V -> 2 <= h ->
+  matured_idx o (load_intervals (dump_interval o [] V)) h = chunk_idx o [] V + h - 3.
+Proof.
+  intros Hi HV Hh. unfold matured_idx, dump_interval.
+  rewrite chunk_idx_imported by lia. rewrite Hi, Z.div_1_r. lia.
+Qed.
